@@ -1157,7 +1157,7 @@ def gen_cfg(rng, alpha_kinds=('fixed',), universe_kinds=('static',), max_days=25
                 a0 = rng.choice(pos_w)
                 share = w[a0] / sum(w.values())
                 mk.setdefault('level', {})[a0[3:]] = cfg['cash'] * (1 - cfg['buffer']) * share * rng.choice([0.45, 0.9, 0.97, 1.02])
-        if len(assets) >= 2 and rng.random() < 0.12:
+        if len(assets) >= 2 and rng.random() < 0.12 and not mk.get('late') and not mk.get('shift'):     # (a copy of a late file would begin late too)
             # two share classes / a duplicated series: the second file is a copy of the first, both get the same weight -
             # equal quantities, equal market values, equal P&L
             mk['clone'] = {syms[1]: syms[0]}
